@@ -7,8 +7,10 @@ ROOT = os.path.dirname(os.path.dirname(os.path.abspath(__file__)))
 
 COMMON_NOTE = ('Trusted: assumed contracts for bytes/futures channels/write_all/clock/atomics (standins/verus/ext.vrs, '
                'units/inc/*_specs.vrs: every external_body/uninterp/assume_specification is listed in evidence.assumptions); '
-               'the stated extraction rewrites W0-W10 (DESIGN.md 3.2); the futures::select! loop of Context::run '
-               '(handlers run one at a time to completion); Verus/Z3/rustc. Interleavings are reduced to sequences of handler calls by that assumption.')
+               'the stated extraction rewrites (DESIGN.md section 3); the futures::select! loop of Context::run '
+               '(handlers run one at a time to completion); Verus/Z3/rustc. Interleavings are reduced to sequences of handler calls by that assumption. '
+               'Bounded stand-ins that run beside the proof and are never counted as proved (evidence: bounded_native_replays): scenario replays of the property against the real crate and, for C05 C06 C10 C11 C15, '
+               'the model-based random-history replay replay/tests/h_model.rs (quick: 1500 histories x 40 steps + 20 x 1500 steps; thorough: x10); they decide only when the deductive check cannot read changed code (exit 2) or as a second opinion.')
 
 CLAIMS = {
     'C01': ('proof', 'Verus discharges, on the real ByteLen/Encode/SizedPacket/PacketID impls of every outbound packet (CONNECT, AUTH, PUBLISH, SUBSCRIBE, UNSUBSCRIBE, DISCONNECT, PINGREQ, PUBACK/PUBREC/PUBREL/PUBCOMP) and of every primitive and property '
